@@ -9,12 +9,13 @@ EXPLANATION = ("Q1 the transition relation of the start/next/finish shims, obtai
                "Ok(None) at the head of the chain or on a direct stream -> Done, the callee's result is returned unmodified; finish on "
                "Closed returns the synthetic rc 80 without calls, otherwise the inner finish sets Closed and returns the stored result "
                "or the synthetic rc 88; Q7 a stream that was not read to the end (any state but Done) answers 88 even if a result is "
-               "stored - or else every adapter path that starts a follow-up Search has emptied stream.res; Q2 the inner receive hands out ResultEntry(tag, controls) built from the received item's own "
-               "components, stores Done's result and returns Ok(None), maps a closed channel to Err(EndOfStream); the control list of the stored "
+               "stored - or else every adapter path that starts a follow-up Search has emptied stream.res; Q2 the inner receive (evaluated from state Active, constructors of the entry type evaluated, stores to the components of the value applied) hands out ResultEntry(tag, controls) of the received item's own "
+               "components for entries and continuation references alike, stores Done's result and returns Ok(None) - on no path but the one on which the stream's own receiver yielded the SearchResultDone -, maps a closed channel to Err(EndOfStream); the control list of the stored "
                "result, as a list term over the list the received result carries itself and the vector received next to it, composed with "
                "what the driver puts into those two when it forwards a SearchResultDone, is exactly the decoded control list - once; "
                "Q5 cancel safety: nothing is moved out of the stream across an await of the stepping function, and no shim leaves a field changed only for the time its callee runs (the chain position) when its future is dropped at that await; Q3 constants (is_ref <=> 19, is_intermediate <=> 25, 80, 88); Q4 Ldap::search = streaming_search_with(EntriesOnly) + "
-               "push every entry in order + finish; EntriesOnly drops intermediates, collects referral URIs, passes everything else.")
+               "push every entry in order + finish; EntriesOnly drops intermediates, collects referral URIs, passes everything else; its finish() returns, on every path, the upstream result with the collected URIs appended to the referral list "
+               "that result came back with (untouched on a path that found nothing collected); Q8 every Adapter::next of the crate returns an upstream error as it is: a path that ends while the upstream result is Err, or not known to be Ok, returns that result, a path that goes on knows it to be Ok.")
 TRUSTED = ['the adapter chain is entered through these shims only (fields are private: witness crate)', 'tokio mpsc FIFO']
 UNDECIDED = ['what the server sent (C01 carries it to the channel)', 'user-defined adapters']
 SHARED = [('C01', ('R3.controls', 'R3.protocol-op', 'R4.'), 'Q6.driver-forwards-the-message'),      # what the stream yields is what the driver put into its channel: the decoded protocolOp and control list, classified by tag number
